@@ -235,6 +235,17 @@ def k_view_history(ctx, seed):
     if r.random() < 0.4:
         t = tcm.PusTc.unpack(bytes(t.pack()))
     ops = []
+
+    def eq_now():
+        """A second telecommand with the same current field values, packed or not (so both may hold a checksum from different
+        moments): equal, both ways, whatever either object cached."""
+        t_eq = build("ctor", f["apid"], f["count"], f["service"], f["subservice"], f["source_id"], f["ack"], f["data"])
+        if len(ops) % 2:
+            t_eq.pack()
+        oke, e = attempt(lambda: (t == t_eq) and (t_eq == t))
+        return ctx.check("tc.view_history", oke and e is True, "object_unequal_to_a_fresh_one_with_the_same_field_values",
+                         "after_field_change" if any(o in ops for o in ("apid", "seq_count", "source_id", "app_data")) else "unchanged", dict(case, ops=list(ops)), observed=repr(e))
+
     for step in range(hist_len(r, 2, 9)):
         op = r.choice(("pack", "calc_crc", "view", "apid", "seq_count", "source_id", "app_data", "pack_cached", "poison", "calc_crc_cached"))
         ops.append(op)
@@ -268,12 +279,16 @@ def k_view_history(ctx, seed):
             else:
                 f["data"] = r.randbytes(r.randrange(0, 12))
                 t.app_data = f["data"]
+            if not eq_now():            # right after the setter, before anything packs this object again
+                return
             continue
         want = R.tc(f["apid"], f["count"], f["service"], f["subservice"], f["source_id"], f["ack"], f["data"])
         what = "space_packet_view" if op == "view" else "pack"
         if "poison" in ops and not any(o in ops for o in ("apid", "seq_count", "source_id", "app_data")):
             what += "_after_failed_operations_on_another_packet"
         V.sp_views(ctx, "tc.view_history", t, want, dict(case, ops=ops), "PusTc/history")
+        if not eq_now():
+            return
         if not ctx.check("tc.view_history", got == want, f"{what}_differs_from_current_fields", _octet_diff(got, want) + "/after_field_change" if any(o in ops for o in ("apid", "seq_count", "source_id", "app_data")) else _octet_diff(got, want),
                          dict(case, ops=ops), observed=got, expected=want):
             return
